@@ -2483,13 +2483,19 @@ impl<'a, R: FileManager> FrontendCtx<'a, R> {
     ) -> Res<Runtype> {
         let mut vs = vec![];
         let module = self.get_or_fetch_file(bff_file_name, anchor)?;
-        for (name, sym) in &module.symbol_exports.named_values {
+        // iterate in name order: the maps are HashMaps and the first error is returned,
+        // so the reported diagnostic must not depend on their iteration order
+        let mut named_values = module.symbol_exports.named_values.iter().collect::<Vec<_>>();
+        named_values.sort_by(|a, b| a.0.cmp(b.0));
+        for (name, sym) in named_values {
             let v = self.extract_sym_export_as_value(sym, anchor)?;
             if let Some(v) = v {
                 vs.push((name.clone(), v.required()));
             }
         }
-        for (name, sym) in &module.symbol_exports.named_unknown {
+        let mut named_unknown = module.symbol_exports.named_unknown.iter().collect::<Vec<_>>();
+        named_unknown.sort_by(|a, b| a.0.cmp(b.0));
+        for (name, sym) in named_unknown {
             let v = self.extract_sym_export_as_value(sym, anchor)?;
             if let Some(v) = v {
                 vs.push((name.clone(), v.required()));
